@@ -624,3 +624,36 @@ func derefParam(v ssa.Value) ssa.Value {
 	}
 	return v
 }
+
+// ------------------------------------------------------------------ C07.R9
+// "verify under the given chain id": the chain id handed to a commit verifier comes from the verifier's
+// trusted context (state, trusted header, configured chain), never from the object whose commit is being
+// checked — a commit signed under another chain's id would otherwise verify against itself.
+func init() {
+	register("C07", "R9", "K3", "the chain id given to a commit verifier does not come from the object whose commit is verified", 8, func(c *Ctx) {
+		w := c.W
+		k := newKeyer()
+		n := 0
+		strip := regexp.MustCompile(`(\.SignedHeader)?\.(Commit|LastCommit)$`)
+		for _, s := range w.allCallsTo("types#ValidatorSet.VerifyCommit", "types#ValidatorSet.VerifyCommitLight", "types#ValidatorSet.VerifyCommitLightTrusting") {
+			if strings.HasSuffix(w.Fset.Position(s.Instr.Pos()).Filename, "_test.go") {
+				continue
+			}
+			call := s.Instr.(ssa.CallInstruction)
+			args := callArgs(call)
+			if len(args) < 4 {
+				continue
+			}
+			chain := w.expr(args[0])
+			commit := w.expr(args[3])
+			if isMethodOf(s.Fn, "types", "ValidatorSet") {
+				continue
+			}
+			n++
+			obj := strip.ReplaceAllString(commit, "")
+			bad := obj != commit && obj != "" && strings.HasPrefix(chain, obj+".")
+			c.Check(!bad, k.key(s.Fn, "chain id for the commit check is independent of the checked object"), w.ipos(call), "chain id from state / trusted header / configuration", "the commit "+commit+" is verified under the chain id "+chain+" taken from the same untrusted object")
+		}
+		c.Check(n >= 8, "commit verifier call sites found", "-", ">= 8", fmt.Sprintf("%d", n))
+	})
+}
